@@ -26,6 +26,7 @@ func main() {
 	if p := ev.Arg("replay"); p != "" {
 		// a replay file names its scenario; try each part until one knows it
 		for _, part := range parts {
+			part = strings.TrimPrefix(part, "+")
 			cmd := exec.Command(filepath.Join(binDir(), "c12-"+part), "--replay", p)
 			cmd.Env = append(os.Environ(), "VERIF_AS=C12", "VERIF_PART="+part)
 			out, _ := cmd.CombinedOutput()
@@ -41,7 +42,12 @@ func main() {
 	perPart := map[string]any{}
 	failed := false
 	for _, part := range parts {
-		cmd := exec.Command(filepath.Join(binDir(), "c12-"+part), "--tier", r.Tier)
+		tier := r.Tier
+		if strings.HasPrefix(part, "+") {
+			// a part marked '+' always runs its quick-tier scenario set (its thorough set belongs to its own property's thorough check)
+			part, tier = part[1:], "quick"
+		}
+		cmd := exec.Command(filepath.Join(binDir(), "c12-"+part), "--tier", tier)
 		cmd.Env = append(os.Environ(), "VERIF_AS=C12", "VERIF_PART="+part)
 		out, err := cmd.CombinedOutput()
 		for _, l := range strings.Split(string(out), "\n") {
@@ -88,7 +94,7 @@ func main() {
 	r.Set("distinct_nontrivial", outcomes)
 	r.Set("exhaustive", exhaustive)
 	r.Set("parts", perPart)
-	r.Set("rule", "the scenario sets of the listed parts (token routing, de-duplication, retransmission, observe streams; see their own evidence for the spaces) re-executed with the pool lifecycle tracker: violation = second release of an object, any *pool.Message method call on a released object, release of a message while the application holds it (response returned from Do, request inside a handler, notification inside a callback), or a change of its content during that window")
+	r.Set("rule", "the scenario sets of the listed parts (token routing, block-wise, de-duplication, retransmission, observe streams at the tier of this run; exchange histories incl. error paths that release early, nested handlers, cancel/close/stop paths and server worlds at their quick-tier size; see their own evidence for the spaces) re-executed with the pool lifecycle tracker: violation = second release of an object, any *pool.Message method call on a released object, release of a message while the application holds it (response returned from Do, request inside a handler, notification inside a callback), or a change of its content during that window")
 	r.Assume("all pool.Message fields are unexported, so method-entry checks see every library access", "leaks (never released) are not violations of C12", "the tracker ignores the unwinding of threads after an execution has ended", "findings of a part's own functional oracle (wrong body, wrong caller, ...) are not C12 violations: the part's own property check runs the same scenarios with the same oracle and the same poison-on-release; here they are only counted in the part's evidence")
 	if failed {
 		// the part binaries already printed their VIOLATION lines and wrote the replay files
